@@ -10,7 +10,9 @@ KindsQ == K3 \cup {KCmd}
 KindsT == K3 \cup K5 \cup {KCmd}
 AlphaQ == {0, 1, 3, 6}
 AlphaT == {0, 1, 3, 4, 6}
+AlphaS == {0, 1, 6}
 CapsQ  == 0..2
+CapsZ  == {0}
 GrowsQ == {1, 2}
 PresQ  == {0, 2}
 Bound == cap <= pre + CapMax
